@@ -491,6 +491,30 @@ def check(pid, cfg, tier, seed, tmp, args, t0):
 
     # ---- verdict
     findings = load_findings(pid)
+    # In-process cases that involve goroutines and time-outs (the matcher loop, concurrent loaders) can give a
+    # verdict that depends on the load of the machine. As for the process-level drivers, a failing or
+    # differing in-process case is believed only if it fails again when it is re-run alone, twice;
+    # deterministic cases repeat identically.
+    if harness and driver and not args.replay:
+        suspects = [r for r in results if (r['spec'] == 'FAIL' or not r['eq']) and not r.get('proc')
+                    and not any(finding_matches(f, r) for f in findings)]
+        unrepeated = 0
+        for r in suspects[:60]:
+            again = []
+            for _ in range(2):
+                try:
+                    rr = evaluate(driver, impl_eval(harness, [r['case']], timeout=300), timeout=300)
+                except Exception:
+                    rr = []
+                again.append(rr[0] if rr else None)
+            bad = [a for a in again if a is not None and (a['spec'] == 'FAIL' or not a['eq'])]
+            if len(bad) < 2:
+                ok = next((a for a in again if a is not None and a['spec'] != 'FAIL' and a['eq']), None)
+                if ok is not None:
+                    results[results.index(r)] = ok
+                    unrepeated += 1
+        if unrepeated:
+            notes.append('%d in-process case(s) gave a verdict that did not repeat when re-run alone (time-out under load); the re-run is reported' % unrepeated)
     fails = [r for r in results if r['spec'] == 'FAIL']
     diffs = [r for r in results if not r['eq'] and r['spec'] != 'FAIL']
     seen_known = {}
